@@ -21,7 +21,7 @@ var BoundInt = []int64{math.MinInt64, math.MinInt64 + 1, -1 << 32, -1 << 31, -2,
 var SmallDate = []uint64{0, 1, 1000, 1600000000, 1700000000, 1 << 31}
 var BoundDate = []uint64{0, 1, 1 << 31, 1 << 32, 1<<63 - 1, 1 << 63, math.MaxUint64}
 var SmallBytes = [][]byte{{}, {0}, {1}, {0x41}, {0x41, 0x42}, {0xff, 0x00, 0x7f}}
-var HardStr = []string{"", "a", "ab", "abc", "é", "日本", "a.b", "^a", "a$", "(", "[a-z]+", "\\", "a\"b", "read", "\x00", "a\nb", "aaaaaaaaaaaaaaaaaaaaaaaaaaaaaaaa", "%s", "%d%%", "50%off", "%!v(MISSING)"}
+var HardStr = []string{"", "a", "ab", "abc", "é", "日本", "a.b", "^a", "a$", "(", "[a-z]+", "\\", "a\"b", "read", "\x00", "a\nb", "aaaaaaaaaaaaaaaaaaaaaaaaaaaaaaaa", "%s", "%d%%", "50%off", "%!v(MISSING)", "caf\xe9", "\xff\xfe", "a\xc3"}
 
 func Pick[T any](r *rand.Rand, xs []T) T { return xs[r.Intn(len(xs))] }
 
